@@ -522,8 +522,18 @@ def _history_sync(rng, n_msgs, p_msg=0.62):
                     "handlers": [(type(h).__name__, getattr(h, "_retry_count", None), bool(h.should_remove_handler)) for h in s.spa._receive_handlers]}))
             for x in w.take():
                 ev.append({"k": "refresh", "off": x["pos"], "data": x["data"][:max(0, 1024 - x["pos"])]})
+            if i == 10:
+                # the spa has nothing to report for a good five minutes (pings and periodic refreshes go on): the
+                # updates that follow are applied and acknowledged like the ones before
+                s.pump(int(320 / 0.05), dt=0.05)
+                if not s.settle():
+                    raise env.MachineryError("threaded session never became quiescent after the quiet spell: " + repr({
+                        "pending": s.transfer_pending(), "inbox": len(s.sock.inbox), "t": s.w2.clock.t,
+                        "handlers": [(type(h).__name__, getattr(h, "_retry_count", None), bool(h.should_remove_handler)) for h in s.spa._receive_handlers]}))
+                for x in w.take():
+                    ev.append({"k": "refresh", "off": x["pos"], "data": x["data"][:max(0, 1024 - x["pos"])]})
             nsent = len(s.sock.wire)
-            if r < p_msg or i == 12:
+            if r < p_msg or i == 12 or i == 10:
                 ch = _gen_message(rng, hot, big=(i == 12))
                 for pos, data in ch:
                     _sim_write(sim_struct, pos, data)
